@@ -541,3 +541,142 @@ impl Drop for ReverseDeltaBuilder {
         }
     }
 }
+
+/// Verification API (cfg nomt_verif), rollback deltas and the bookkeeping of [`Rollback`]: the priors
+/// of a [`Delta`] as a plain sorted list, a read-only view of the in-memory log, a way to hold one of
+/// the two locks `commit_nonblocking` tries, and the real [`Rollback`] driven directly on a scratch
+/// directory (`commit`, `commit_nonblocking`, `truncate`, one sync = `begin_sync` + `post_meta` +
+/// `wait_post_meta`, reopen with a chosen live range). Nothing here is used by the store itself.
+#[cfg(nomt_verif)]
+pub mod verif_delta {
+    use super::{Delta, Rollback};
+    use std::{fs::File, path::Path, sync::Arc};
+
+    /// `Delta::priors`, ascending by key.
+    pub type Priors = Vec<([u8; 32], Option<Vec<u8>>)>;
+
+    /// The priors of a delta, ascending by key.
+    pub fn priors_of(delta: &Delta) -> Priors {
+        let mut priors: Priors = delta
+            .priors
+            .iter()
+            .map(|(k, v)| (*k, v.clone()))
+            .collect();
+        priors.sort_by(|a, b| a.0.cmp(&b.0));
+        priors
+    }
+
+    fn delta_of(priors: Priors) -> Delta {
+        Delta {
+            priors: priors.into_iter().collect(),
+        }
+    }
+
+    /// What `Rollback` holds in memory.
+    pub struct LogView {
+        /// `InMemory::log`, oldest first: record id and priors.
+        pub log: Vec<(u64, Priors)>,
+        /// `InMemory::pending_truncate`.
+        pub pending_truncate: Option<u64>,
+        /// `SegmentedLog::live_range`.
+        pub seglog_range: (u64, u64),
+    }
+
+    /// The in-memory log, the pending truncation and the live range of the seglog.
+    pub fn log_view(rollback: &Rollback) -> LogView {
+        let in_memory = rollback.shared.in_memory.lock();
+        let seglog = rollback.shared.seglog.lock();
+        let (start, end) = seglog.live_range();
+        LogView {
+            log: in_memory
+                .log
+                .iter()
+                .map(|(id, delta)| (id.0, priors_of(delta)))
+                .collect(),
+            pending_truncate: in_memory.pending_truncate,
+            seglog_range: (start.0, end.0),
+        }
+    }
+
+    /// Run `f` while this thread holds the `in_memory` lock (`which == 1`) or the `seglog` lock
+    /// (`which == 2`) of the rollback log; `which == 0` holds nothing. `f` must not block on them.
+    pub fn with_lock<R>(rollback: &Rollback, which: u8, f: impl FnOnce() -> R) -> R {
+        match which {
+            1 => {
+                let _guard = rollback.shared.in_memory.lock();
+                f()
+            }
+            2 => {
+                let _guard = rollback.shared.seglog.lock();
+                f()
+            }
+            _ => f(),
+        }
+    }
+
+    /// The real [`Rollback`] on a scratch directory.
+    pub struct RollbackSim {
+        rollback: Rollback,
+    }
+
+    impl RollbackSim {
+        /// `Rollback::read` with the given live range.
+        pub fn open(
+            dir: &Path,
+            max_rollback_log_len: u32,
+            start_live: u64,
+            end_live: u64,
+        ) -> anyhow::Result<Self> {
+            let fd = Arc::new(File::open(dir)?);
+            let rollback = Rollback::read(
+                max_rollback_log_len,
+                dir.to_path_buf(),
+                fd,
+                start_live,
+                end_live,
+            )?;
+            Ok(RollbackSim { rollback })
+        }
+
+        /// `Rollback::commit`.
+        pub fn commit(&self, priors: Priors) -> anyhow::Result<()> {
+            self.rollback.commit(delta_of(priors))
+        }
+
+        /// `Rollback::commit_nonblocking` while this thread holds the lock `hold` (see
+        /// [`with_lock`]). Returns the priors of the delta handed back, if any.
+        pub fn commit_nonblocking(
+            &self,
+            priors: Priors,
+            hold: u8,
+        ) -> anyhow::Result<Option<Priors>> {
+            let delta = delta_of(priors);
+            let res = with_lock(&self.rollback, hold, || {
+                self.rollback.commit_nonblocking(delta)
+            })?;
+            Ok(res.map(|d| priors_of(&d)))
+        }
+
+        /// `Rollback::truncate`: the traceback, ascending by key.
+        pub fn truncate(&self, n: usize) -> anyhow::Result<Option<Priors>> {
+            Ok(self
+                .rollback
+                .truncate(n)?
+                .map(|traceback| traceback.into_iter().collect()))
+        }
+
+        /// One sync: `begin_sync` (the range to publish), `post_meta`, `wait_post_meta`.
+        pub fn sync(&self) -> std::io::Result<(u64, u64)> {
+            let mut controller = self.rollback.sync();
+            let range = controller.begin_sync();
+            controller.post_meta();
+            controller.wait_post_meta()?;
+            Ok(range)
+        }
+
+        /// See [`log_view`].
+        pub fn view(&self) -> LogView {
+            log_view(&self.rollback)
+        }
+    }
+}
